@@ -646,28 +646,33 @@ func change(k, near int) string {
 	case 1:
 		return it('c', 1, 1, cv)
 	case 2:
-		return it('d', 1, 1, dv) + "/" + it('c', 1, 1, 200000+k)
+		return it('d', 1, 1, dv) + "," + it('c', 1, 1, 200000+k)
 	case 3:
 		return it('d', 2, 1, dv)
 	}
 	return it('c', 3, 1, cv)
 }
 
-func joinItems(xs ...string) string {
+// joinItems: one group per item (the shrinker of bin/check drops ','-separated parts of the last
+// field); groupItems: the items of one group, to be repeated
+func joinItems(xs ...string) string  { return joinWith(",", xs) }
+func groupItems(xs ...string) string { return joinWith("/", xs) }
+
+func joinWith(sep string, xs []string) string {
 	var out []string
 	for _, x := range xs {
 		if x != "" && !strings.HasPrefix(x[1:], "0.") { // no empty items
 			out = append(out, x)
 		}
 	}
-	return strings.Join(out, "/")
+	return strings.Join(out, sep)
 }
 
 type scaleGen struct {
 	g *tr.G
 }
 
-func (s *scaleGen) emit(ops, recipe, tag string, composed bool) {
+func (s *scaleGen) emit(ops, recipe, tag string, composed bool, more ...string) {
 	g := s.g
 	out, orc := execScale(ops, recipe)
 	in := "S " + ops + " " + orc + " " + recipe
@@ -678,6 +683,9 @@ func (s *scaleGen) emit(ops, recipe, tag string, composed bool) {
 	g.W.Case(in, out, false)
 	g.W.Count(tag, 1)
 	g.W.Count("scale", 1)
+	for _, t := range more {
+		g.W.Count(t, 1)
+	}
 	// what the case reached, from the stage summaries chunks:edits:context:digest
 	f := map[string]string{}
 	for _, w := range strings.Fields(out) {
@@ -804,7 +812,21 @@ func genScale(g *tr.G) {
 				if n >= 64 {
 					tag = "scale-gaps-n>=64"
 				}
-				s.emit(hs[0], recipe, tag, false)
+				class := "scale-gap>2n:stay-apart"
+				switch {
+				case n == 0 || n == 5000:
+					class = "scale-gap:n=0-or-n-beyond-the-file"
+				case gap <= n:
+					class = "scale-gap<=n:whole-context-removed"
+				case gap < 2*n:
+					class = "scale-n<gap<2n:contexts-overlap"
+				case gap == 2*n:
+					class = "scale-gap=2n:contexts-abut"
+				}
+				if style != 3 && n > 0 && n < 5000 && gap > n && gap < 2*n {
+					class += "(lines-not-all-equal)"
+				}
+				s.emit(hs[0], recipe, tag, false, class)
 				if !long || thorough || style == 0 {
 					s.emit(hs[1+(tx+rot)%(len(hs)-1)], recipe, tag, false)
 				}
@@ -827,7 +849,7 @@ func genScale(g *tr.G) {
 				per += gap + 1
 			}
 			reps := max(1, min(1025/len(gaps), g.Scale(1500, 4000)/per))
-			recipe := joinItems(cyc...) + "*" + strconv.Itoa(reps)
+			recipe := strings.ReplaceAll(groupItems(cyc...), ",", "/") + "*" + strconv.Itoa(reps)
 			s.emit(scaleHists(n)[0], recipe, "scale-gap-cycle", false)
 			s.emit(scaleHists(n)[1+(n+rot)%4], recipe, "scale-gap-cycle", false)
 		}
@@ -868,7 +890,7 @@ func genScale(g *tr.G) {
 					// two changes: at both ends; three: ends and middle
 					text(joinItems(one, run(size-2, style, 7), it('d', 1, 1, 100001)), "scale-size-2-changes")
 					m := (size - 3) / 2
-					text(joinItems(one, run(m, style, 7), it('d', 1, 1, 100001)+"/"+it('c', 1, 1, 200001),
+					text(joinItems(one, run(m, style, 7), it('d', 1, 1, 100001), it('c', 1, 1, 200001),
 						run(size-3-m, style, 8), it('d', 1, 1, 100002)), "scale-size-3-changes")
 				}
 			}
@@ -876,9 +898,9 @@ func genScale(g *tr.G) {
 			if size >= 8 {
 				for v, per := range []int{3, 4, 2} {
 					// a group: per-1 common lines and a dropped one (per lines of Left, one change)
-					grp, lper, cper := joinItems(run(per-1, 0, 7), it('d', 1, 1, 100000)), per, 1
+					grp, lper, cper := groupItems(run(per-1, 0, 7), it('d', 1, 1, 100000)), per, 1
 					if v == 1 { // changes alternate between a dropped and an inserted line
-						grp = joinItems(run(per-1, 0, 7), it('d', 1, 1, 100000), run(per, 0, 17), it('c', 1, 1, 200000))
+						grp = groupItems(run(per-1, 0, 7), it('d', 1, 1, 100000), run(per, 0, 17), it('c', 1, 1, 200000))
 						lper, cper = 2*per, 2
 					}
 					reps := min((1025+cper-1)/cper, (size-1)/lper)
@@ -896,7 +918,8 @@ func genScale(g *tr.G) {
 			// Quick tier: every variant up to 129 lines; from 255 lines on the dear styles 1-3
 			// only in one variant per size (none from 2047 lines on); a third of the others
 			// around 1024; from 2047 lines on three per size: different lines, runs of 33, many
-			// changes.  Which ones rotates with the seed.
+			// changes.  Which ones rotates with the seed.  Thorough: everything up to 1025
+			// lines, above that all variants of the cheap styles and a few of the dear ones.
 			pick := make([]bool, len(vs))
 			var cheap, dear, many []int
 			for i, v := range vs {
@@ -910,9 +933,16 @@ func genScale(g *tr.G) {
 				}
 			}
 			switch {
-			case thorough || size < 200:
+			case size < 200 || (thorough && size < 1100):
 				for i := range pick {
 					pick[i] = true
+				}
+			case thorough: // all but the dear styles: three of those around 2048, one around 4096
+				for _, i := range append(cheap, many...) {
+					pick[i] = true
+				}
+				for j := 0; j < 3 && (j == 0 || size < 2100); j++ {
+					pick[dear[(size*7+rot+j*8)%len(dear)]] = true
 				}
 			case size < 600:
 				for _, i := range append(cheap, many...) {
@@ -936,9 +966,14 @@ func genScale(g *tr.G) {
 					continue
 				}
 				n := scaleNs[(i+size+rot)%len(scaleNs)]
+				if v.many && size >= 600 {
+					// so small that most chunks stay apart: Unify walks a long list, and up to
+					// 1025 chunks are left at the end
+					n = (i + size + rot) % 2
+				}
 				hs := scaleHists(n)
 				s.emit(hs[(i+rot)%len(hs)], v.recipe, v.tag, false)
-				if (size < 200 && (i+rot)%2 == 0) || thorough {
+				if (size < 200 && (i+rot)%2 == 0) || (thorough && (size < 1100 || v.style == 0 || v.style == 4)) {
 					n2 := scaleNs[(i+size+rot+5)%len(scaleNs)]
 					s.emit(scaleHists(n2)[0], v.recipe, v.tag, false)
 				}
@@ -970,7 +1005,7 @@ func genScale(g *tr.G) {
 		for c := 2 + g.R.Intn(6); c > 0 && total < 3000; c-- {
 			style := g.R.Intn(nStyles)
 			gap := max(1, []int{n - 1, n, n + 1, 2*n - 1, 2 * n, 2*n + 1, g.R.Intn(2*n + 3)}[g.R.Intn(7)])
-			if styleCost(style, gap) > 20000 && !thorough {
+			if styleCost(style, gap) > g.Scale(20000, 100000) {
 				style = []int{0, 4}[g.R.Intn(2)]
 			}
 			near := 0
